@@ -30,13 +30,13 @@ EXPLANATION = (
     "Functions are tuple builders (tag,)+args so results expose argument order, nesting and container types. Oracle: an independent "
     "evaluator of the same legacy dict written from the documented semantics (docs/source/spec.rst: a tuple headed by a callable is a call, a list "
     "is a list of computations, a value equal to a key is that key's value) plus an independent walk collecting the keys a term references. "
-    "Asserted per path: convert_legacy_graph keeps every key and yields GraphNodes; each node's .dependencies (and DependenciesMapping) "
+    "Asserted per path: convert_legacy_graph keeps every key and yields GraphNodes carrying that key; each node's .dependencies (and DependenciesMapping) "
     "equal the referenced keys; node(values) equals the oracle value; dask.core.get on the legacy graph (one key, all keys, with some keys "
     "supplied through cache=) equals the oracle; resolve_aliases followed by execute_graph returns the same requested values. A second family "
     "builds task-object graphs directly (Task with args/kwargs, TaskRef, Alias, DataNode, nested List/Tuple/Set/Dict in all three Dict "
     "constructor forms) from an AST with its own evaluator; key-like literals there must NOT be dereferenced. Every path model is re-run "
     "natively and, in e2e, every node and the whole converted graph are pickled and unpickled (dependencies and computed value preserved) and "
-    "the legacy graph is run through dask.get (synchronous scheduler) and dask.threaded.get.")
+    "the converted graph is also executed in execute_graph's list-of-nodes form and the legacy graph is run through dask.get (synchronous scheduler) and dask.threaded.get.")
 ASSUMPTIONS = [
     "graphs are acyclic and every reference points to a key of the graph or of the supplied cache (ints that would equal a later key are excluded by assumption)",
     "a tuple that is not headed by a callable is, unless the whole tuple equals a key, evaluated elementwise and rebuilt as a tuple: the property text and "
@@ -57,10 +57,18 @@ OUTSIDE = ["dict values that are legacy terms, e.g. get({'x': 1, 'y': (f, {'a': 
            "raw Python containers holding task objects passed as Task arguments (documented as not traversed)", "graphs with cycles or self references",
            "terms deeper than 2 / wider than 2 (thorough: depth 2 with both children deep; quick: one deep child per level)"]
 BOUNDS = {
-    "quick": dict(term="depth<=2, width<=2 (one deep child per level at depth 2), int leaves symbolic in [-1,2], ('t', w) with w in [0,1]", keys="0, 1, ('t',1), 's' fixed + one generated key; chains of 3 generated keys 0 -> ('t',1) -> 's'",
-                  objects="task-object AST depth<=2, width<=2, literals symbolic in [-1,1]"),
-    "thorough": dict(term="depth<=2, width<=2 with every child deep, more leaf kinds (1.0, quoted dict)", keys="same key sets; chains with depth-1 width-2 terms at every key",
-                     objects="task-object AST depth<=2, width<=2, all children deep"),
+    "quick": dict(
+        term="fixed keys 0, 1, ('t',1), 's' + generated key 'y'. depth 1: width<=2, every leaf kind (symbolic int in [-1,1], 's', 'z', ('t', w) w in [0,1], 1.0, "
+             "quote([v]) / quote((h, key, v)) / quote({'p': v}) with v symbolic, quote(key)), dict argument with <=1 entry; same with key 1 supplied through cache=. "
+             "depth 2: width<=2, one deep child per level, leaves symbolic int in [-1,0] and ('t', w), shallow sibling a symbolic int, dict arguments with <=1 entry",
+        chain="keys 0 -> ('t',1) -> 's' all generated: 'z' or (f,) ; depth-1 width-1 call/list ; depth-1 width-2 call/list/tuple over symbolic ints in [-1,0] and ('t', w)",
+        objects="fixed task-object nodes 0, 1, ('t',1), 's' + generated 'y': depth 1 width<=2 over literal (symbolic int in [-1,1], never hashed except in Set), 's', TaskRef/Alias of 0 or ('t',1), "
+                "DataNode, Task with args / with a kwarg, List, Tuple, Set, Dict (3 constructor forms); depth 2 with one deep child per level and reduced leaves"),
+    "thorough": dict(
+        term="depth 1 with int leaves in [-1,2], dict arguments with <=2 entries and 6 value kinds, cache variant as a flag; depth 2 width<=2 with EVERY child deep, "
+             "all leaf kinds at levels 0-1",
+        chain="first key: symbolic int / 'z' / (f, x); second: depth-1 width-1; third: depth-1 width-2; leaves int, ('t', w), 'z', dict arguments",
+        objects="depth 1 with TaskRef/Alias over all four keys; depth 2 with every child deep, Dict forms at the top level"),
 }
 
 
@@ -317,6 +325,9 @@ def check_legacy(e, dsk, cache_in, outs):
     for k in dsk:
         node = conv[k]
         e.check(isinstance(node, GraphNode), f"converted value of {k!r} is not a GraphNode")
+        # module docstring: "Every GraphNode instance has a key attribute that should reference the key in the dask graph";
+        # execute_graph given the nodes as a list relies on it (checked behaviourally in e2e)
+        e.check(plain(node.key) == k, f"converted node stored under {k!r} carries the key {node.key!r}")
         got = plainset(node.dependencies)
         e.check(got == want_deps[k], f"dependencies of {k!r}: reported {sorted(map(repr, got))}, referenced {sorted(map(repr, want_deps[k]))}")
         e.check(plainset(dm[k]) == want_deps[k], f"DependenciesMapping of {k!r} differs from the referenced keys")
@@ -348,7 +359,7 @@ def check_resolve(e, conv, env, req, cache_in=None):
         e.check(lambda: e.equal(vals[k], env[k]), f"after resolve_aliases key {k!r} has a different value")
 
 
-def pickle_checks(conv, env, cache_in=None):
+def pickle_checks(conv, env, cache_in=None, as_list=False):
     """native: pickling a node preserves its dependencies and the value it computes"""
     for k, node in conv.items():
         try:
@@ -368,6 +379,11 @@ def pickle_checks(conv, env, cache_in=None):
     for k in conv:
         if res[k] != env[k] or _types(res[k]) != _types(env[k]):
             raise Violation(f"the pickled graph computes {res[k]!r} for {k!r}, expected {env[k]!r}")
+    if as_list:
+        res = TS.execute_graph(list(conv.values()), dict(cache_in or {}), keys=set(conv))
+        for k in conv:
+            if k not in res or res[k] != env[k]:
+                raise Violation(f"execute_graph on the list of converted nodes computes {res.get(k)!r} for {k!r}, expected {env[k]!r}")
 
 
 def _types(x):
@@ -393,7 +409,7 @@ def _legacy_e2e(build):
         for k in dsk:
             env[k] = ref_eval(dsk[k], env, keys)
         conv = TS.convert_legacy_graph(dsk, all_keys=set(keys))
-        pickle_checks(conv, env, cache_in)
+        pickle_checks(conv, env, cache_in, as_list=True)
         if cache_in:
             return        # the schedulers' public get has no way to name precomputed keys other than cache=, covered by core.get
         allk = list(dsk)
@@ -633,12 +649,12 @@ def obligations(tier):
         obs.append(mk_term("d1,w2,all leaf kinds", 1, c1, None))
         cc = dict(leaves=[("int", "one", "tkey")], comps=COMPS, width=2, irange=(0, 1), dwidth=1, cache="always")
         obs.append(mk_term("d1,w2,key 1 supplied in cache", 1, cc, None))
-        c2 = dict(leaves=[L_SMALL], sib=("int",), comps=COMPS, width=2, irange=(-1, 0), one_deep=True, dwidth=2)
+        c2 = dict(leaves=[L_SMALL], sib=("int",), comps=COMPS, width=2, irange=(-1, 0), one_deep=True, dwidth=1)
         for top in COMPS:
             obs.append(mk_term(f"d2,w2,one deep,top={top}", 2, c2, (top,), every=5))
-        cb0 = dict(leaves=[("slit",)], comps=("call",), width=1, irange=(-1, 1))
-        cb1 = dict(leaves=[("int",)], comps=COMPS, width=1, irange=(-1, 0), dwidth=1)
-        cb2 = dict(leaves=[("int", "tkey")], comps=COMPS, width=2, irange=(-1, 0), dwidth=1)
+        cb0 = dict(leaves=[("slit",)], comps=("call",), width=0, irange=(-1, 1))
+        cb1 = dict(leaves=[("int",)], comps=("call", "list"), width=1, irange=(-1, 0))
+        cb2 = dict(leaves=[("int", "tkey")], comps=COMPS, width=2, irange=(-1, 0))
         obs.append(mk_chain("3 keys,d1", [(1, cb0), (1, cb1), (1, cb2)], every=5))
         co = dict(kinds=[O_LEAF + O_COMP, O_LEAF], kw=("lit", "ref"), refs=[(0, T1)], width=2, irange=(-1, 1))
         obs.append(mk_objects("d1,w2", 1, co, None))
@@ -652,9 +668,10 @@ def obligations(tier):
         c2 = dict(leaves=[L_FULL, L_FULL, L_SMALL], comps=COMPS, width=2, irange=(-1, 0), one_deep=False, dwidth=1)
         for top in COMPS:
             obs.append(mk_term(f"d2,w2,all deep,top={top}", 2, c2, (top,), every=11))
-        cb0 = dict(leaves=[("int", "slit", "q_list")], comps=COMPS, width=1, irange=(-1, 1))
-        cb1 = dict(leaves=[("int", "tkey", "slit")], comps=COMPS, width=2, irange=(-1, 0), dwidth=1)
-        obs.append(mk_chain("3 keys,d1,w2", [(1, cb0), (1, cb1), (1, cb1)], every=11))
+        cb0 = dict(leaves=[("int", "slit")], comps=("call",), width=1, irange=(-1, 1))
+        cb1 = dict(leaves=[("int", "tkey", "slit")], comps=COMPS, width=1, irange=(-1, 0), dwidth=1)
+        cb2 = dict(leaves=[("int", "tkey", "slit")], comps=COMPS, width=2, irange=(-1, 0), dwidth=1)
+        obs.append(mk_chain("3 keys,d1,w2", [(1, cb0), (1, cb1), (1, cb2)], every=11))
         co = dict(kinds=[O_LEAF + O_COMP, O_LEAF], refs=[BASEKEYS], width=2, irange=(-1, 1))
         obs.append(mk_objects("d1,w2,all keys", 1, co, None))
         co2 = dict(kinds=[O_COMP, ("lit", "ref", "alias") + O_COMP, ("lit", "ref")], kw=("ref", "lit"), refs=[(0, T1), (T1,), (0,)], width=2, irange=(-1, 1),
